@@ -29,9 +29,10 @@ Definition checkF (c : case_t) : bool :=
   | None => false
   end.
 Definition checkS (c : case_t) : bool :=
+  if negb (in_quant (c_file c)) then true else
   match c_obs c with
   | Some o => nfile_eqb (spec_save_open (c_file c)) o
   | None => false
   end.
-Definition region (c : case_t) : nat := region_of (c_dflt c) (c_file c).
+Definition region (c : case_t) : nat := region_of (c_file c).
 Definition check (c : case_t) : verdict := (checkF c, checkS c, region c).
